@@ -192,9 +192,73 @@ func (g *Gen) nearBoundaryPut() *eng.Tx {
 	return nil
 }
 
+// mixedAdmissionPut: one message listing, for one owner and one allowed class, a batch that satisfies
+// the basket's date criterion and a batch that does not (in either order).
+func (g *Gen) mixedAdmissionPut() *eng.Tx {
+	for try := 0; try < 6; try++ {
+		bk := g.basket()
+		if bk == nil || bk.DateCriteria == nil {
+			continue
+		}
+		c := bk.DateCriteria
+		var min time.Time
+		switch {
+		case c.MinStartDate != nil:
+			min = c.MinStartDate.AsTime()
+		case c.StartDateWindow != nil:
+			if c.StartDateWindow.Seconds > 9_000_000_000 {
+				continue
+			}
+			min = g.Now.Add(-c.StartDateWindow.AsDuration())
+		case c.YearsInThePast != 0:
+			min = time.Date(g.Now.Year()-int(c.YearsInThePast), 1, 1, 0, 0, 0, 0, time.UTC)
+		default:
+			continue
+		}
+		for _, a := range g.A {
+			var good, bad *baskettypes.BasketCredit
+			var goodClass, badClass string
+			for _, b := range g.V.BatchList {
+				cl := g.V.ClassOfBatch(b)
+				if cl == nil || !g.V.BasketClasses[bk.Id][cl.Id] || b.StartDate == nil {
+					continue
+				}
+				t, _, _ := g.V.BalOf(a, b.Key)
+				if t.Sign() <= 0 {
+					continue
+				}
+				cr := &baskettypes.BasketCredit{BatchDenom: b.Denom, Amount: g.amountUpTo(new(big.Rat).Quo(t, big.NewRat(8, 1)))}
+				if b.StartDate.AsTime().Before(min) {
+					if bad == nil || g.chance(0.3) {
+						bad, badClass = cr, cl.Id
+					}
+				} else if good == nil || g.chance(0.3) {
+					good, goodClass = cr, cl.Id
+				}
+			}
+			if good != nil && bad != nil && goodClass == badClass {
+				cs := []*baskettypes.BasketCredit{good, bad}
+				if g.chance(0.3) {
+					cs = []*baskettypes.BasketCredit{bad, good}
+				}
+				return tx(&baskettypes.MsgPut{Owner: a, BasketDenom: bk.BasketDenom, Credits: cs})
+			}
+		}
+	}
+	return nil
+}
+
 func (g *Gen) genPut() *eng.Tx {
 	if g.chance(g.P.Boundary) {
 		if t := g.nearBoundaryPut(); t != nil {
+			return t
+		}
+	}
+	if g.chance(g.P.Boundary / 2) {
+		g.quiet = true
+		t := g.mixedAdmissionPut()
+		g.quiet = false
+		if t != nil {
 			return t
 		}
 	}
